@@ -69,6 +69,12 @@ pub mod bbsplus_utils {
     /// # Output
     /// * `Vec<u8>`, a secret
     pub fn generate_random_secret(n: usize) -> Vec<u8> {
+        #[cfg(feature = "verif_hooks")]
+        if crate::utils::verif_hooks::enter("generate_random_secret") {
+            let v = generate_random_secret(n);
+            crate::utils::verif_hooks::leave("generate_random_secret");
+            return crate::utils::verif_hooks::draw("secret", vec![n.to_string()], v);
+        }
         let mut rng = thread_rng();
         let mut secret = vec![0; n]; // Initialize a vector of length n with zeros
         rng.fill_bytes(&mut secret); // Fill the vector with random bytes
@@ -324,6 +330,13 @@ pub mod bbsplus_utils {
     }
 
     pub(crate) fn get_random() -> Scalar {
+        #[cfg(feature = "verif_hooks")]
+        if crate::utils::verif_hooks::enter("get_random") {
+            let v = get_random();
+            crate::utils::verif_hooks::leave("get_random");
+            let b = crate::utils::verif_hooks::draw("scalar", vec![], v.to_be_bytes().to_vec());
+            return Scalar::from_bytes_be(&b).unwrap();
+        }
         let rng = rand::thread_rng();
         Scalar::random(rng)
     }
